@@ -321,3 +321,35 @@ def by_keyword(func, args, observe=None):
         return (f"{getattr(func, '__name__', func)}({shown}) with every argument by name gives "
                 f"{outcomes[1]!r}, the same call made positionally gives {outcomes[0]!r}")[:700]
     return None
+
+
+def harvest_ints(module, low=8, high=1 << 40):
+    """Whole-number literals in a module's source (also inside float literals like 1e15 and in
+    simple constant expressions of two literals): the thresholds, block sizes and caps the code
+    itself singles out.  Feeding them (and their small multiples and neighbours) to the
+    alphabets of lengths, counts and tick numbers makes the exploration follow the code under
+    test instead of guessing round numbers."""
+    import ast                              # pylint: disable=import-outside-toplevel
+    import inspect                          # pylint: disable=import-outside-toplevel
+    import math                             # pylint: disable=import-outside-toplevel
+    try:
+        tree = ast.parse(inspect.getsource(module))
+    except (OSError, TypeError, SyntaxError):
+        return []
+    found = set()
+    for node in ast.walk(tree):
+        if isinstance(node, ast.Constant) and isinstance(node.value, (int, float)) and \
+                not isinstance(node.value, bool):
+            val = node.value
+            if isinstance(val, float):
+                if not math.isfinite(val):
+                    continue
+                cands = [int(val)] if val == int(val) else []
+                if val > 0:
+                    cands.append(int(math.isqrt(int(val)))) if val < 1e30 else None
+            else:
+                cands = [val]
+            for cand in cands:
+                if low <= abs(cand) <= high:
+                    found.add(abs(cand))
+    return sorted(found)
